@@ -119,16 +119,23 @@ def buildNetwork (r : Opt) (ps : List (Opt × Nat)) : Net :=
 
 /-! ## quick-find merging (node contraction) -/
 
+/-- a representative map (current name of every node).  Wrapped in a structure so that the
+compiled code evaluates the merged labels once, when the merge is made. -/
+structure Lab where
+  get : Nat → Nat
+
+def Lab.id : Lab := ⟨fun n => n⟩
+
 /-- contract the class named `max a b` into the class named `min a b` -/
-def merge (lab : Nat → Nat) (a b : Nat) : Nat → Nat :=
-  fun n => let x := lab n; if x = max a b then min a b else x
+def merge (lab : Lab) (a b : Nat) : Lab :=
+  ⟨fun n => let x := lab.get n; if x = max a b then min a b else x⟩
 
 /-- merge along every edge selected by `p`, in list order -/
-def mergeAlong (p : Edge → Bool) : (Nat → Nat) → List Edge → (Nat → Nat)
+def mergeAlong (p : Edge → Bool) : Lab → List Edge → Lab
   | lab, [] => lab
-  | lab, e :: es => mergeAlong p (if p e then merge lab (lab e.i) (lab e.j) else lab) es
+  | lab, e :: es => mergeAlong p (if p e then merge lab (lab.get e.i) (lab.get e.j) else lab) es
 
-def relabel (lab : Nat → Nat) (e : Edge) : Edge := ⟨lab e.i, lab e.j, e.kind⟩
+def relabel (lab : Lab) (e : Edge) : Edge := ⟨lab.get e.i, lab.get e.j, e.kind⟩
 
 /-! ## `remove_rigid` -/
 
@@ -146,16 +153,16 @@ def sameEnds (a b x y : Nat) : Bool := (x == a && y == b) || (x == b && y == a)
 /-- number of edges of the *current* multigraph between current nodes `a` and `b`
 (`number_of_edges(i, j)`); processed rigid edges have both ends in one class and never count
 when `a ≠ b` -/
-def parallel (all : List Edge) (lab : Nat → Nat) (a b : Nat) : Nat :=
-  all.countP (fun e => sameEnds a b (lab e.i) (lab e.j))
+def parallel (all : List Edge) (lab : Lab) (a b : Nat) : Nat :=
+  all.countP (fun e => sameEnds a b (lab.get e.i) (lab.get e.j))
 
 /-- process the rigid edges of `rest` in order; `all` is the complete edge list -/
-def rrGo (all : List Edge) (bcs : List Nat) : (Nat → Nat) → List Edge → Except Err (Nat → Nat)
+def rrGo (all : List Edge) (bcs : List Nat) : Lab → List Edge → Except Err Lab
   | lab, [] => .ok lab
   | lab, e :: rest =>
     if e.isRigid then
-      let a := lab e.i
-      let b := lab e.j
+      let a := lab.get e.i
+      let b := lab.get e.j
       if parallel all lab a b != 1 then .error .rigidAcrossSpring
       else if bcs.contains a && bcs.contains b then .error .twoBCs
       else if bcs.contains (max a b) then .error .deletingBC
@@ -163,27 +170,27 @@ def rrGo (all : List Edge) (bcs : List Nat) : (Nat → Nat) → List Edge → Ex
     else rrGo all bcs lab rest
 
 /-- the contracted network for a given representative map -/
-def contractBy (lab : Nat → Nat) (net : Net) : Net :=
-  ⟨net.nodes.filter (fun n => lab n == n),
+def contractBy (lab : Lab) (net : Net) : Net :=
+  ⟨net.nodes.filter (fun n => lab.get n == n),
    (net.edges.filter (fun e => !e.isRigid)).map (relabel lab),
    net.bcs⟩
 
 def removeRigid (net : Net) : Except Err Net :=
-  match rrGo net.edges net.bcs id net.edges with
+  match rrGo net.edges net.bcs Lab.id net.edges with
   | .ok lab => .ok (contractBy lab net)
   | .error e => .error e
 
 /-- representative (surviving node) of every node after `remove_rigid`, when no error is raised -/
-def rigidRep (net : Net) : Nat → Nat := mergeAlong Edge.isRigid id net.edges
+def rigidRep (net : Net) : Nat → Nat := (mergeAlong Edge.isRigid Lab.id net.edges).get
 
 /-! ## `split_disconnect` -/
 
 /-- connected-component label (smallest node of the component) -/
-def compLab (es : List Edge) : Nat → Nat := mergeAlong (fun _ => true) id es
+def compLab (es : List Edge) : Lab := mergeAlong (fun _ => true) Lab.id es
 
-def component (net : Net) (es : List Edge) (lab : Nat → Nat) (r : Nat) : Net :=
-  ⟨net.nodes.filter (fun n => lab n == r), es.filter (fun e => lab e.i == r),
-   net.bcs.filter (fun n => lab n == r)⟩
+def component (net : Net) (es : List Edge) (lab : Lab) (r : Nat) : Net :=
+  ⟨net.nodes.filter (fun n => lab.get n == r), es.filter (fun e => lab.get e.i == r),
+   net.bcs.filter (fun n => lab.get n == r)⟩
 
 /-- kept by the final filter of `split_disconnect`: has an edge, and a tube or a BC node -/
 def keep (c : Net) : Bool := !c.edges.isEmpty && (c.edges.any Edge.isTube || !c.bcs.isEmpty)
@@ -191,8 +198,17 @@ def keep (c : Net) : Bool := !c.edges.isEmpty && (c.edges.any Edge.isTube || !c.
 def splitDisconnect (net : Net) : List Net :=
   let es := net.edges.filter (fun e => !e.isDisc)
   let lab := compLab es
-  let roots := net.nodes.filter (fun n => lab n == n)
+  let roots := net.nodes.filter (fun n => lab.get n == n)
   (roots.map (component net es lab)).filter keep
+
+/-- `split_disconnect` as it was coded at the pinned commit (defect F16): only edgeless components
+are dropped, so a floating group of connection springs is returned (and cannot be solved). Kept as
+the reference for the witness theorem. -/
+def splitDisconnectPinned (net : Net) : List Net :=
+  let es := net.edges.filter (fun e => !e.isDisc)
+  let lab := compLab es
+  let roots := net.nodes.filter (fun n => lab.get n == n)
+  (roots.map (component net es lab)).filter (fun c => !c.edges.isEmpty)
 
 def reduce (net : Net) : Except Err (List Net) :=
   match removeRigid net with
@@ -204,7 +220,7 @@ def reduce (net : Net) : Except Err (List Net) :=
 def connected (c : Net) : Bool :=
   match c.nodes with
   | [] => false          -- `nx.is_connected` raises on the null graph
-  | n :: ns => let lab := compLab c.edges; ns.all (fun m => lab m == lab n)
+  | n :: ns => let lab := compLab c.edges; let r := lab.get n; ns.all (fun m => lab.get m == r)
 
 def validateSolve (c : Net) : Except Err Unit :=
   if !c.edges.all Edge.isSpring then .error .notSprings
